@@ -196,7 +196,23 @@ CHECKS["C02"] = {
     "technique": "Coq specification of the document + proved lexer/parser layout lemmas; grammar-directed differential correspondence of the crate against the extracted specification and reader model",
 }
 
+CHECKS["C04"] = {
+    "text": "The literal text of the mmCIF writer (the format strings of its write! invocations and the anisotropic header) and the reader's tag "
+            "tables (define_columns!, the item names and prefixes it matches) are regenerated from the source on every run (T5). The writer model "
+            "(Model/CifWrite.v: placeholder filling, print_float in exact binary64 arithmetic, base-26 label ids, the aligned table) and the reader "
+            "model (shared with C02/C06) are compared with the crate on every generated structure (bytes written, outcome of the re-read). The "
+            "round-trip specification (Spec/CifRoundTrip.v) states, independently of the writer's arithmetic, when a re-read structure is the "
+            "original with every atom number rounded to five decimals and identifier, cell, space group, scale, origx and NCS operators unchanged; "
+            "it is evaluated on every (original, re-read) pair, and a second write must reproduce the file byte for byte. Proved: every tag the "
+            "writer emits is one the reader recognises or is on the reviewed list of ignored tags, and every mandatory reader column is written; "
+            "the hand-written column and item tables of the reader model equal the regenerated ones.",
+    "design_ref": "DESIGN.md section 6 C04",
+    "note": "read_cif (save_mmcif s) = round5 s is not proved as a theorem; both models are tied to the code by correspondence and the "
+            "specification is evaluated per structure. Trusted: Coq kernel, T5, extraction, harness generator.",
+    "technique": "Coq proof over translator-regenerated tag tables (writer tags are reader tags) + executable round-trip specification; differential correspondence of writer and reader models with the crate",
+}
+
 NOT_APPLICABLE = [
     {"property_id": p, "reason": PENDING}
-    for p in ["C03", "C04", "C15"]
+    for p in ["C03", "C15"]
 ]
